@@ -153,6 +153,9 @@ async def _run(case):
     fail_data = {int(c): set(v) for c, v in faults.get("data", {}).items()}   # per component: failing *_data() calls
     ncalls = {"components": 0}
     ndata: dict = {}
+    probes: dict = {}
+    # per component: how long the n-th stream-opening call stays pending: [loop iterations, quarter seconds]
+    open_delay = {int(c): v for c, v in case.get("open", {}).items()}
 
     async def _yield(n):
         for _ in range(n):
@@ -187,6 +190,17 @@ async def _run(case):
             if cats.get(cid) != cat:
                 raise ValueError(f"component {cid} is not a {cat}")
             ndata[cid] = ndata.get(cid, 0) + 1
+            log.append(["dcall", cid])
+            spec = open_delay.get(cid, [])
+            its, quarters = spec[ndata[cid] - 1] if ndata[cid] <= len(spec) else (0, 0)
+            try:
+                await _yield(its)
+                if quarters:
+                    await asyncio.sleep(0.25 * quarters + 0.01)
+            except asyncio.CancelledError:
+                log.append(["dcancel", cid])      # the calling task was cancelled while the call was pending
+                raise
+            # like the real client, the receiver is created only when the call returns
             if ndata[cid] in fail_data.get(cid, ()):
                 log.append(["datafail", cid])
                 raise ApiFault(f"{cat.lower()}_data({cid}) failed")
@@ -328,7 +342,21 @@ async def _run(case):
                 await api_senders[cid].send(m)
         # quiesce; without faults < 1 s so that nothing but the scenario is on the trace; with faults
         # long enough for every RESTART_DELAY (2 s) of the actor and every retry of run_forever (1 s)
-        await asyncio.sleep(2.2 * (len(fail_components) + 1) + 1.3 * sum(len(v) for v in fail_data.values()) + 1.1 if faults else 0.9)
+        slow = sum(0.25 * q + 0.02 for v in open_delay.values() for _, q in v)
+        await asyncio.sleep(slow + (2.2 * (len(fail_components) + 1) + 1.3 * sum(len(v) for v in fail_data.values()) + 1.1 if faults else 0.9))
+        # liveness probe: once everything has settled the API sends one more message per component; every
+        # stream that is subscribed by then has to get it (a stream that was never opened shows up here)
+        for cid in sorted(cats):
+            if cats[cid] in CATS:
+                k = sent[cid]
+                sent[cid] += 1
+                m = build_msg(I, cats[cid], cid, k, msg_ts_us(case, cid, k))
+                msg_index[id(m)] = k
+                keep.append(m)
+                probes[str(cid)] = k
+                log.append(["api", cid, k])
+                await api_senders[cid].send(m)
+        await asyncio.sleep(0.9)
     except Exception as exc:  # noqa: BLE001
         errors.append(f"driver: {type(exc).__name__}: {exc}")
     finally:
@@ -354,7 +382,7 @@ async def _run(case):
             v = s.value.base_value if s.value is not None else None
             got.append([ts, None if v is None else int(v) if v == int(v) else repr(v)])
         streams[key] = got
-    return {"log": log, "streams": streams, "keys": key_of, "errors": errors}
+    return {"log": log, "streams": streams, "keys": key_of, "errors": errors, "probes": probes}
 
 
 keep: list = []
@@ -459,6 +487,13 @@ def to_events(case, obs):
             i += 1
         elif e[0] == "close":
             i += 1      # the consumer's own action: no event of the source
+        elif e[0] == "dcall":
+            if not pending.get(e[1]):
+                return None
+            ev.append((f"HandlerOpen {cZ(e[1])}", "ONone"))     # the handler awaits the stream-opening call
+            i += 1
+        elif e[0] == "dcancel":
+            i += 1      # the cancelled task dies inside the call (the model's AddMetric already replaced it)
         elif e[0] in ("recv", "goc", "hcrash", "datafail"):
             cid = e[1] if e[0] != "goc" else (tab[e[1]][0] if e[1] in tab else None)
             if cid is None or not pending.get(cid):
@@ -655,6 +690,13 @@ def oracle(case, obs):
         extra = [k for k in ks if k not in accepted[cid]]
         if key in closed_keys:
             continue           # its consumer gave the channel up: no claim about what it still gets
+        probe = obs.get("probes", {}).get(str(cid))
+        if probe is not None and probe not in ks:
+            opened = cid in first_recv
+            out.append({"what": f"stall: stream {d} did not receive message {probe} of component {cid}, sent by the API after "
+                                f"everything had settled ({'the data stream was open' if opened else 'the component data stream was never opened'})",
+                        "finding": None})
+            continue
         if extra:
             out.append({"what": f"phantom: stream {d} received messages {extra} the API receiver never got", "finding": None})
         if missing:
@@ -725,6 +767,8 @@ def gen_case(rng, maxlen=12, unsupported=False):
                  "start": rng.choice([None, None, None, 5]), "gap": gen_gap(rng)}
             subs.append(a)
         case["actions"].append(a)
+    if rng.random() < 0.4:
+        case["open"] = gen_open(rng, comps)
     if unsupported:
         cid, cat = rng.choice(comps + nodata)
         bad = [m for m in metric_names() if not supported(cat, m)]
@@ -796,6 +840,35 @@ def small_scope(maxlen, gaps=(0, 1, -1)):
                 yield {"mode": "direct", "comps": [[cid, "METER"]], "actions": acts + [dict(MM, gap=0)]}
 
 
+def gen_open(rng, comps):
+    """How long each of the first calls that open a component's stream stays pending."""
+    out = {}
+    for c, _ in comps:
+        if rng.random() < 0.8:
+            out[str(c)] = [[rng.choice([0, 1, 1, 2, 3, 4, 6, 8]), rng.choice([0, 0, 0, 1, 2])] for _ in range(4)]
+    return out
+
+
+def open_boundary_cases():
+    """A second new subscription for a not yet streaming component g loop iterations after the first while the
+    API takes `its` iterations (or virtual time) to open the stream; duplicates and other components meanwhile."""
+    out = []
+    for cid, cat in POOL[:4]:
+        ms = supported_metrics(cat)
+        S = lambda metric, ns="a", gap=0, c=cid: {"t": "sub", "cid": c, "metric": metric, "ns": ns, "start": None, "gap": gap}
+        M = lambda gap=0: {"t": "msg", "cid": cid, "gap": gap}
+        for mode in ("direct", "actor"):
+            for its in (1, 2, 4, 8):
+                for g in (0, 1, 2, 3, 5, 9):
+                    out.append({"mode": mode, "comps": [[cid, cat]], "open": {str(cid): [[its, 0], [its, 0], [1, 0]]}, "actions": [
+                        S(ms[0]), S(ms[1], gap=g), M(1), S(ms[0], gap=1), M(-1), M(0), S(ms[2], ns="b", gap=g), M(0), M(-1)]})
+            # the API answers after 0.5 s of virtual time; requests / messages arrive while it is pending
+            out.append({"mode": mode, "comps": [[cid, cat], [15, "METER"]], "open": {str(cid): [[0, 2], [3, 1], [0, 0]], "15": [[2, 0]]}, "actions": [
+                S(ms[0]), M(-1), S(ms[1], gap=0), S("ACTIVE_POWER", c=15, gap=0), M(-1), S(ms[1], gap=0), S(ms[2], gap=1), M(-1),
+                M(-4), M(0), {"t": "msg", "cid": 15, "gap": 0}, M(-1)]})
+    return out
+
+
 def gen_fault_case(rng):
     """The API client fails while a request is handled (the real actor restarts after RESTART_DELAY) or while
     a handler starts (run_forever retries); already served requests are repeated and new ones added around it."""
@@ -834,6 +907,8 @@ def gen_fault_case(rng):
     if rng.random() < 0.4:
         cid = rng.choice(comps)[0]
         case["faults"]["data"] = {str(cid): sorted(rng.sample([1, 2, 3], rng.choice([1, 2])))}
+    if rng.random() < 0.35:
+        case["open"] = gen_open(rng, comps)
     return case
 
 
@@ -915,6 +990,15 @@ def shrink_case(case):
         yield {**case, "mode": "direct"}
     if case.get("suspend"):
         yield {k: v for k, v in case.items() if k != "suspend"}
+    if case.get("open"):
+        yield {k: v for k, v in case.items() if k != "open"}
+        for c, v in case["open"].items():
+            if any(x != [0, 0] for x in v[1:]):
+                yield {**case, "open": {**case["open"], c: [v[0]] + [[0, 0] for _ in v[1:]]}}
+            if v[0][1]:
+                yield {**case, "open": {**case["open"], c: [[v[0][0], 0]] + v[1:]}}
+            if v[0][0] > 1:
+                yield {**case, "open": {**case["open"], c: [[v[0][0] - 1, v[0][1]]] + v[1:]}}
     if case.get("faults", {}).get("data"):
         yield {**case, "faults": {k: v for k, v in case["faults"].items() if k != "data"}}
     if case.get("same_ts"):
@@ -982,6 +1066,23 @@ def labels_of(case, obs):
             pending_start[e[1]] = False
         elif e[0] == "hcrash":
             lab.add("handler_crash")
+    opening = set()
+    for j, e in enumerate(log):
+        if e[0] == "dcall":
+            opening.add(e[1])
+            if j + 1 < len(log) and log[j + 1][0] not in ("recv", "datafail"):
+                lab.add("opening_call_suspends")
+        elif e[0] in ("recv", "datafail"):
+            opening.discard(e[1])
+        elif e[0] == "dcancel":
+            opening.discard(e[1])
+            lab.add("handler_cancelled_while_opening")
+        elif e[0] == "add" and e[1] in opening:
+            lab.add("request_while_opening")
+        elif e[0] == "api" and e[1] in opening:
+            lab.add("msg_while_opening")
+    if sum(1 for e in log if e[0] == "dcancel") > 1:
+        lab.add("cancelled_while_opening_twice")
     if any(e[0] == "restart" for e in log):
         lab.add("actor_restart")
         if any(e[0] == "add" for e in log[max(i for i, e in enumerate(log) if e[0] == "restart"):]):
@@ -1009,7 +1110,7 @@ def labels_of(case, obs):
 class DSStream(Stream):
     name = "trace"
     coq_header = HEADER
-    n_quick = 1500
+    n_quick = 1300
     n_fault_quick, n_fault_thorough = 400, 6000
     n_close_quick, n_close_thorough = 300, 5000
     n_thorough = 30000
@@ -1021,6 +1122,7 @@ class DSStream(Stream):
         yield from all_metrics_cases()
         yield from fault_boundary_cases()
         yield from close_boundary_cases()
+        yield from open_boundary_cases()
         quick = tier == "quick"
         for _ in range(self.n_fault_quick if quick else self.n_fault_thorough):
             yield gen_fault_case(rng)
@@ -1049,7 +1151,7 @@ class DSStream(Stream):
     def key(self, case, obs):
         if sum(len(v) for v in obs["streams"].values()) == 0:
             return None
-        return json.dumps([case["comps"], case["actions"], case.get("mode"), case.get("same_ts"), case.get("faults")], sort_keys=True)
+        return json.dumps([case["comps"], case["actions"], case.get("mode"), case.get("same_ts"), case.get("faults"), case.get("open")], sort_keys=True)
 
     def labels(self, case, obs):
         return labels_of(case, obs)
